@@ -15,6 +15,9 @@ func (e ESMClass) ReadByte() (c byte, err error) {
 	c |= e.MessageType & 0b1111 << 2
 	c |= getBool(e.UDHIndicator) << 6
 	c |= getBool(e.ReplyPath) << 7
+	if e.MessageMode > 0b11 || e.MessageType > 0b1111 {
+		err = ErrDataTooLarge
+	}
 	return
 }
 
